@@ -116,6 +116,20 @@ def splineKnots (xmin xmax : Rat) (numKnots deg : Nat) : List Rat :=
   let dx := (xmax - xmin) / ((numKnots : Rat) - 1)
   (List.range (numKnots + 2 * deg)).map fun (i : Nat) => xmin + (((i : Int) - (deg : Int) : Int) : Rat) * dx
 
+/-- `x.min()` / `x.max()` of `_spline_knots` (0 for the empty array, which the real code rejects earlier) -/
+def xMin : List Rat → Rat
+  | [] => 0
+  | x :: xs => xs.foldl (fun m v => if v < m then v else m) x
+def xMax : List Rat → Rat
+  | [] => 0
+  | x :: xs => xs.foldl (fun m v => if m < v then v else m) x
+
+/-- `_spline_knots(x, num_knots, spline_degree, True)` followed by `_spline_basis(x, knots, spline_degree)`
+(`PSpline._make_basis`): knots from the extremes of x, then the design matrix of x on them -/
+def xKnots (xs : List Rat) (numKnots deg : Nat) : List Rat := splineKnots (xMin xs) (xMax xs) numKnots deg
+def pSplineBasis (xs : List Rat) (numKnots deg : Nat) : List Row :=
+  designRows (xKnots xs numKnots deg) deg xs
+
 /-- `_basis_midpoints` index logic: how many points it returns for `nk` knots in total -/
 def basisMidpointsCount (nk deg : Nat) : Nat :=
   if deg % 2 = 1 then (nk - (deg - deg / 2)) - (1 + deg / 2)
